@@ -5,7 +5,7 @@ PREFIXES = ("C06-", "C11-valid-session-refused", "C11-mismatched-session-accepte
 
 
 def run(ctx):
-    cc.run(ctx, PREFIXES, nsim=ctx.pick(40, 1200), nrand=ctx.pick(60, 2500), sim_depth=ctx.pick(13, 17),
+    cc.run(ctx, PREFIXES, nsim=ctx.pick(40, 500), nrand=ctx.pick(60, 900), sim_depth=ctx.pick(13, 17),
            what="every finalized rf@*.h5 of every history is opened with raw h5py: index rows, dataset length, the 14 stored "
                 "attributes (as strings), uuid, sequence number; TLC judges them against the window capacity, the written samples "
                 "and the session parameters. Regeneration: drf_properties.h5 is deleted and recreate_properties_file is pointed at "
